@@ -1605,6 +1605,11 @@ class G_Into(FieldPicking):
             fs = pick(r, big)
             i, j = r.sample(range(len(fs)), 2)
             fs[j].ty = fs[i].ty
+            if len(fs) >= 3 and r.random() < 0.5:
+                # three (or more) candidates: an odd number must be refused just like two
+                for q in range(len(fs)):
+                    if q not in (i, j) and r.random() < 0.7:
+                        fs[q].ty = fs[i].ty
         field_types = [f.ty for _, fs in containers for f in fs]
         # ---- targets
         k = pick(r, [1, 1, 1, 2, 2, 3])
